@@ -1,7 +1,9 @@
-/- Driver ops for LevelBasedForaging.  Ops: lbf.{step, state, judge, instance, bounds} -/
+/- Driver ops for LevelBasedForaging.  Ops: lbf.{step, state, judge, instance, bounds, spec} -/
 import JumanjiModel.Bridge.Json
 import JumanjiModel.Env.LBF.Model
 import JumanjiModel.Env.LBF.Bounds
+import JumanjiModel.Env.LBF.SpecValid
+import JumanjiModel.Bridge.Spec
 open Lean Jb
 
 namespace Jb.LBF
@@ -45,6 +47,13 @@ def getCfg (j : Json) : Except String Cfg := do
   pure { gridSize := ← fNat cfg "grid_size", fov := ← fNat cfg "fov", timeLimit := ← fInt cfg "time_limit",
          gridObs := ← fBool cfg "grid_obs", normalize := ← fBool cfg "normalize", penalty := ← fRat cfg "penalty" }
 
+def jNValue (v : Sp.NValue) : Json := jList (fun (e : String × Sp.Arr) => jObj [("key", jStr e.1), ("value", SpecOps.jArr e.2)]) v
+
+/-- the generator's arguments the specs depend on: (num_agents, num_food, max_agent_level) -/
+def getAFL (j : Json) : Except String (Nat × Nat × Nat) := do
+  let c ← field j "cfg"
+  pure (← fNat c "num_agents", ← fNat c "num_food", ← fNat c "max_agent_level")
+
 def getActions (j : Json) : Except String (List Int) := getList getInt j
 
 def legalInt (g : Nat) (s : State) (i : Nat) (a : Int) : Bool := decide (0 ≤ a) && decide (legal g s i a.toNat)
@@ -80,6 +89,17 @@ def opState : Op := fun j => do
                ("legal", jBools (legalMask g s).flatten),
                ("obs", jObs (observeL2 cfg s)),
                ("consistent", jBool (decide (Consistent g s) && decide (WF s)))]
+  -- wave 4 (C01), when the configuration carries the generator's arguments: the timestep the model's `reset` builds on top of this
+  -- state, the L1 observation as spec-level arrays (`toNValue`), its membership in the model's `obsSpec cfg A F L`, and the invariant
+  -- of `lbf_step_obs_valid`
+  let base ← match ← fOpt (← field j "cfg") "max_agent_level" getNat with
+    | none => pure base
+    | some _ => do
+      let (A, F, L) ← getAFL j
+      pure (base ++ [("reset_ts", jTimeStep jObs (resetTs cfg s)),
+                     ("nvalue", jNValue (toNValue (observe cfg s))),
+                     ("obs_in_spec", jBool ((obsSpec cfg A F L).valid (toNValue (observe cfg s)))),
+                     ("spec_inv", jBool (decide (SpecInv cfg A F L s)))])
   let init ← fOpt j "initial" getState
   let acts ← fOpt j "actions" (getList getActions)
   match init, acts with
@@ -165,7 +185,11 @@ def opInstance : Op := fun j => do
     ("agent_levels_in_range", jBool (s.agents.all (fun a => decide (1 ≤ a.level ∧ a.level ≤ maxLevel)))),
     ("food_levels_in_range", jBool (s.foods.all (fun f => decide (1 ≤ f.level ∧ f.level ≤ low3) &&
         (!coop || decide (f.level = low3))))),
-    ("collectable", jBool (decide (collectable s)))])
+    ("collectable", jBool (decide (collectable s))),
+    -- wave 4 (C01): the invariant behind `lbf_step_obs_valid` and membership of the reset observation in the symbolic
+    -- `obsSpec cfg num_agents num_food max_agent_level`, on the implementation's reset state
+    ("spec_inv", jBool (decide (SpecInv cfg na nf maxLevel.toNat s))),
+    ("reset_obs_in_spec", jBool ((obsSpec cfg na nf maxLevel.toNat).valid (toNValue (resetTs cfg s).obs)))])
 
 /-- C01: the proven value interval of every observation leaf (`obsBounds`; theorems
 `Props.C01.lbf_{reset,step}_obs_in_bounds`); cfg additionally has num_agents, max_agent_level -/
@@ -177,7 +201,15 @@ def opBounds : Op := fun j => do
   let jB (o : Option Rat) : Json := match o with | none => .null | some r => jRat r
   pure (jObj ((obsBounds cfg na ml).map (fun b => (b.1, jObj [("lo", jB b.2.1), ("hi", jB b.2.2)]))))
 
+/-- {cfg} → the model's `obsSpec cfg A F L`, `actionSpec A`, reward and discount spec in the `speclib.leaf_json` layout -/
+def opSpec : Op := fun j => do
+  let cfg ← getCfg j
+  let (A, F, L) ← getAFL j
+  pure (jObj [("observation_spec", SpecOps.jNested (obsSpec cfg A F L)), ("action_spec", SpecOps.jLeaf (actionSpec A)),
+              ("reward_spec", SpecOps.jLeaf (MaS.rewardSpecN A)), ("discount_spec", SpecOps.jLeaf (MaS.discountSpecN A)),
+              ("action_spec_wf", jBool (actionSpec A).WF), ("generate_value", SpecOps.jArr (actionSpec A).generate)])
+
 def ops : List (String × Op) :=
-  [("lbf.step", opStep), ("lbf.state", opState), ("lbf.judge", opJudge), ("lbf.instance", opInstance),
+  [("lbf.spec", opSpec), ("lbf.step", opStep), ("lbf.state", opState), ("lbf.judge", opJudge), ("lbf.instance", opInstance),
    ("lbf.bounds", opBounds)]
 end Jb.LBF
